@@ -15,14 +15,16 @@ Theorem C04_local_insert_readable_at_index : forall s pos v vs i s' o r,
 Proof. exact local_insert_readable. Qed.
 Print Assumptions C04_local_insert_readable_at_index.
 
-(* every remote operation keeps all existing elements, in their order *)
-Theorem C04_order_stable_on_replica : forall s o,
+(* every remote operation keeps all existing elements, in their order.  [is_snap o = false]: the snapshot
+   operation, which a client creates once with the datatype and the server stores as the first operation of
+   the log, REPLACES the state by its body; it is not an operation on elements. *)
+Theorem C04_order_stable_on_replica : forall s o, is_snap o = false ->
   sublist (ids (l_nodes s)) (ids (l_nodes (l_exec_remote s o))).
 Proof. exact remote_keeps_order. Qed.
 Print Assumptions C04_order_stable_on_replica.
 
 (* a deleted element stays deleted under every remote operation (update included) *)
-Theorem C04_never_resurrected : forall s o,
+Theorem C04_never_resurrected : forall s o, is_snap o = false ->
   sublist (dead_ids (l_nodes s)) (dead_ids (l_nodes (l_exec_remote s o))).
 Proof. exact remote_never_resurrects. Qed.
 Print Assumptions C04_never_resurrected.
